@@ -4,6 +4,7 @@ import (
 	"encoding/binary"
 	"hash/fnv"
 	"runtime"
+	"sync/atomic"
 
 	"verifsim/rng"
 )
@@ -57,7 +58,7 @@ type taskState struct {
 	mapCalls uint64
 	// hold > 0: the task is inside a section bracketed by verifsim.Hold (it holds a real lock, is inside
 	// sync.Once.Do or in code that starts goroutines); its yields do not preempt.
-	hold int
+	hold int32 // atomic: Hold(+1)/Hold(-1) may also arrive from goroutines the held function started
 	goid uint64
 }
 
@@ -76,21 +77,18 @@ func goid() uint64 {
 	return id
 }
 
-// holdHook is installed as verifsim.HoldHook.
+// holdHook is installed as verifsim.HoldHook. It may be entered by a goroutine that a held function of the
+// running task started (that function waits for it, so s.cur is stable); the counter is therefore atomic.
 func (s *sched) holdHook(d int) {
 	if !s.active {
 		return
 	}
 	t := s.tasks[s.cur]
-	if s.foreign && goid() != t.goid {
-		return
-	}
-	t.hold += d
-	if t.hold < 0 {
-		t.hold = 0
+	if atomic.AddInt32(&t.hold, int32(d)) < 0 {
+		atomic.StoreInt32(&t.hold, 0)
 	}
 	if d > 0 {
-		s.holds++
+		atomic.AddInt64(&s.holds, 1)
 	}
 }
 
@@ -107,6 +105,7 @@ type sched struct {
 	inRun []int // model index + 1, 0 = not in a Run
 	// probes
 	preemptInsideRun   int64 // preemptions taken while another task was inside a Run of the same model
+	overlaps           int64 // Runs entered while another task was parked inside a Run of the same model
 	switches           int64
 	aborted            bool
 	foreign            bool  // the library starts goroutines of its own: check goroutine identity at yields
@@ -151,8 +150,11 @@ func (s *sched) hook(site int) {
 		return
 	}
 	t := s.tasks[s.cur]
-	if s.foreign && goid() != t.goid {
-		return // a goroutine the library started itself: not under the scheduler's control
+	if atomic.LoadInt32(&t.hold) > 0 {
+		// inside a critical section, sync.Once, or a function that starts goroutines (whose yields arrive here from
+		// other goroutines while the task waits for them): no preemption, and nothing is counted, so that the
+		// numbering of the task's yields does not depend on what those goroutines do
+		return
 	}
 	k := t.yields
 	t.yields++
@@ -160,9 +162,6 @@ func (s *sched) hook(site int) {
 	if s.steps > s.maxSteps {
 		// runaway guard: stop preempting, let everything run to completion serially
 		s.aborted = true
-		return
-	}
-	if t.hold > 0 {
 		return
 	}
 	next := s.pol.atYield(s, t.id, k, s.steps, site)
@@ -199,11 +198,8 @@ func (s *sched) run(fns []func()) {
 		t := t
 		go func() {
 			<-t.wake
-			if s.foreign {
-				t.goid = goid()
-			}
 			t.fn()
-			t.hold = 0
+			atomic.StoreInt32(&t.hold, 0)
 			t.finished = true
 			next := s.pol.onFinish(s, t.id)
 			if next < 0 || next >= len(s.tasks) || s.tasks[next].finished {
